@@ -249,5 +249,90 @@ example : outs (run (toyCfg 1) fresh [(zeroArgFirst, some [1])]) = (none, [(fals
 example : ∃ s ∈ toDeclared, isMatch (toyCfg 1) s := ⟨⟨[7], [[1]], []⟩, by decide, by decide, by decide⟩
 end examples
 
+/-! ## non-vacuity, theorem by theorem: the hypotheses of each theorem at concrete values
+
+  `history_independent` and `run_append` have no hypotheses. -/
+
+/-- non-vacuity of `prompt_iff_match`: a fresh identity is locked (the `example`s
+    below show both sides of the equivalence true on `toDeclared`, false on `toOther`) -/
+theorem prompt_iff_match_nonvacuous : (fresh : State).cached = none := rfl
+
+example : ∃ pre s post, toDeclared = pre ++ s :: post ∧ (∀ s' ∈ pre, passedOver (toyCfg 1) s') ∧
+    isMatch (toyCfg 1) s :=
+  (prompt_iff_match (toyCfg 1) fresh toDeclared (some [1]) prompt_iff_match_nonvacuous).mp (by decide)
+example : ¬ ∃ pre s post, toOther = pre ++ s :: post ∧ (∀ s' ∈ pre, passedOver (toyCfg 1) s') ∧
+    isMatch (toyCfg 1) s :=
+  fun h => absurd ((prompt_iff_match (toyCfg 1) fresh toOther (some [1]) prompt_iff_match_nonvacuous).mpr h)
+    (by decide)
+
+/-- non-vacuity of `no_prompt_outcomes`: a fresh identity and a file for another
+    key (→ "incorrect identity"); the `example` below: a zero-argument stanza of
+    the declared type before the match (→ "invalid recipient block") -/
+theorem no_prompt_outcomes_nonvacuous :
+    (fresh : State).cached = none ∧
+    (step (toyCfg 1) fresh toOther (some [1])).2.prompted = false := by decide
+
+example : (fresh : State).cached = none ∧
+    (step (toyCfg 1) fresh zeroArgFirst (some [1])).2.prompted = false := by decide
+example : (step (toyCfg 1) fresh toOther (some [1])).2.result = .incorrectIdentity ∧
+    (step (toyCfg 1) fresh zeroArgFirst (some [1])).2.result = .errMalformed := by decide
+
+example : (step (toyCfg 1) fresh toOther (some [1])).1 = fresh :=
+  (no_prompt_outcomes (toyCfg 1) fresh toOther (some [1]) no_prompt_outcomes_nonvacuous.1
+    no_prompt_outcomes_nonvacuous.2).1
+
+/-- non-vacuity of `prompt_for_own_file`: a fresh identity and a three-stanza
+    header (another type, the declared type with another tag, the match) -/
+theorem prompt_for_own_file_nonvacuous :
+    (fresh : State).cached = none ∧
+    (∃ s ∈ toDeclared, isMatch (toyCfg 1) s) ∧
+    (∀ s ∈ toDeclared, s.type = (toyCfg 1).keyType → s.args ≠ []) :=
+  ⟨rfl, ⟨⟨[7], [[1]], []⟩, by decide, by decide, by decide⟩, by decide⟩
+
+example : (step (toyCfg 1) fresh toDeclared none).2.prompted = true :=
+  prompt_for_own_file (toyCfg 1) fresh toDeclared none prompt_for_own_file_nonvacuous.1
+    prompt_for_own_file_nonvacuous.2.1 prompt_for_own_file_nonvacuous.2.2
+
+/-- non-vacuity of `no_trace_after_failure` (no outer hypotheses; the premises of
+    its two parts): the right passphrase changes the state of a fresh identity; a
+    key file holding another key ends in the failure class "mismatch" -/
+theorem no_trace_after_failure_nonvacuous :
+    (step (toyCfg 1) fresh toDeclared (some [1])).1 ≠ fresh ∧
+    ((step (toyCfg 2) fresh toDeclared (some [1])).2.result = .errMismatch ∧
+     ((Result.errMismatch : Result Bool) = .errCallback ∨ (Result.errMismatch : Result Bool) = .errDecryptKey ∨
+      (Result.errMismatch : Result Bool) = .errMismatch ∨ (Result.errMismatch : Result Bool) = .errUnexpectedType ∨
+      (Result.errMismatch : Result Bool) = .errInvalidKey ∨ (Result.errMismatch : Result Bool) = .errMalformed ∨
+      (Result.errMismatch : Result Bool) = .incorrectIdentity)) := by decide
+
+example : (step (toyCfg 1) fresh toDeclared (some [1])).1 = ⟨some (toyCfg 1).declared⟩ :=
+  ((no_trace_after_failure (toyCfg 1) fresh toDeclared (some [1])).1 no_trace_after_failure_nonvacuous.1).2.1
+example : (step (toyCfg 2) fresh toDeclared (some [1])).1 = fresh :=
+  (no_trace_after_failure (toyCfg 2) fresh toDeclared (some [1])).2 .errMismatch
+    no_trace_after_failure_nonvacuous.2.1 no_trace_after_failure_nonvacuous.2.2
+
+/-- non-vacuity of `only_validated_cached`: a wrong passphrase, then the right one -/
+theorem only_validated_cached_nonvacuous :
+    (run (toyCfg 1) fresh [(toDeclared, some [2]), (toDeclared, some [1])]).1.cached = some 1 := by decide
+
+example : ∃ c ∈ [(toDeclared, some [2]), (toDeclared, some ([1] : Passphrase))],
+    scanStanzas (toyCfg 1) c.1 = .matched ∧
+      ∃ p, c.2 = some p ∧ (toyCfg 1).openFile p = some (.key (toyCfg 1).declared) :=
+  (only_validated_cached (toyCfg 1) _ 1 only_validated_cached_nonvacuous).2
+
+/-- both alternatives of `history_independent` (which has no hypotheses) occur -/
+example : (run (toyCfg 1) fresh [(toDeclared, some [2]), (toOther, none)]).1 = fresh ∧
+    (run (toyCfg 1) fresh [(toDeclared, some [2]), (toDeclared, some [1])]).1 = ⟨some (toyCfg 1).declared⟩ := by
+  decide
+
+/-- non-vacuity of `unlocked_agrees_with_fresh`: passphrase `[1]` opens the toy key
+    file to the declared key and `toDeclared` makes the scan end in a match -/
+theorem unlocked_agrees_with_fresh_nonvacuous :
+    (toyCfg 1).openFile [1] = some (.key (toyCfg 1).declared) ∧
+    scanStanzas (toyCfg 1) toDeclared = .matched := by decide
+
+example : (step (toyCfg 1) fresh toDeclared (some [1])).2.result = .delegated true :=
+  ((unlocked_agrees_with_fresh (toyCfg 1) toDeclared none [1] unlocked_agrees_with_fresh_nonvacuous.1
+    unlocked_agrees_with_fresh_nonvacuous.2).1).trans (by decide)
+
 end Props.C19
 end AgeModel
